@@ -87,7 +87,8 @@ class DPCheck(SubCheck):
         replays = 0
         cover = {}
         try:
-            run = dpcheck.symbolic_run(shape, time_budget=self.budget(tier) if not os.environ.get("VERIF_LLSYM_BUDGET") else int(os.environ["VERIF_LLSYM_BUDGET"]))
+            budget = int(os.environ.get("VERIF_LLSYM_BUDGET") or shape.get("budget") or self.budget(tier))
+            run = dpcheck.symbolic_run(shape, time_budget=budget)
         except Unsupported as u:
             return JobResult(sub=self.name, shape=shape, stats=stats, violations=[], samples=[], cover={}, errors=["LLSym unsupported: %s" % u], replays=0, obligations=1, discharged=0, inconclusive=1, wall_s=time.time() - t0)
         it = run.it
@@ -390,6 +391,10 @@ class Pedigree(Optimality):
             out.append(trio(2, [(2, (0, 1)), (2, (0, 1))], allhet, W=31, Rc=31, distrust=True, G=31))
             out.append(trio(4, [(2, (0, 1, 2, 3))], [[H] * 4, [H] * 4, [H] * 4], W=31, Rc=31))
             out.append(trio(4, [(2, (0, 1)), (2, (2, 3))], [[H] * 4, [H] * 4, [H] * 4], W=31, Rc=31))
+            # father and child read over 4 columns: the smallest shape in which a transmission change competes with a
+            # read error while columns are recomputed in the backtrace (seeded change C01-1 needs exactly this).
+            # Interpretation takes 1-2 hours (wrap-analysis queries on large terms), hence its own budget.
+            out.append(trio(4, [(0, (0, 1, 2, 3)), (2, (0, 1, 2, 3))], [[H] * 4, [H] * 4, [H] * 4], W=15, Rc=15, budget=10800))
         return out
 
     def bounds(self, tier):
